@@ -133,6 +133,13 @@ def gen_cases(rng, tier, scale):
          ('wF14', [_t('#if t', True, False, True), _x('\n'), _t('v', False, False, False, 'V'), _x('\n foo'), _t('/if', True)])]
     for cid, items in W:
         cases.append(rcase(cid, source(items), DATA, partials=PARTS, entry=0, items=items, kind='grid', cellk=None, tags=['witness']))
+    # the registry's prevent_indent option concerns what a PARTIAL writes; the standalone rule itself is the same with it:
+    # an indented decorator / comment / block tag alone on its line still leaves no trace
+    for i, (t, exp) in enumerate([('a\n  {{*sethelper "u"}}\nb', 'a\nb'), ('a\n\t{{! c }}\nb', 'a\nb'), ('a\n  {{#if t}}\n  x\n  {{/if}}\nb', 'a\n  x\nb'),
+                                  ('a\n  {{#*inline "i"}}\n  x\n  {{/inline}}\nb{{> i}}', 'a\nb  x\n'), ('a\n  {{> p}}\nb', 'a\n  Pb'),
+                                  ('  {{*sethelper "u"}}\nb', 'b'), ('a\n  {{*sethelper "u"}}', 'a\n')]):
+        for pi in (1, 0):
+            cases.append(rcase(f'pi{i}_{pi}', t, DATA, pre=['probes', f'pi {pi}'], partials=PARTS, entry=0, kind='exact', exp=exp, tags=['standalone-under-prevent-indent']))
     # `~` on a value expression equals deleting the whitespace by hand
     m = (150 if tier == 'quick' else 2000) * scale
     for i in range(m):
@@ -145,6 +152,9 @@ def gen_cases(rng, tier, scale):
     return cases
 
 def oracle(c, io, mo):
+    if c['kind'] == 'exact':
+        r = res_of(io)
+        return None if r.get('out') == c['exp'] else f'expected {c["exp"]!r}, got {r.get("out", r.get("reason"))!r}'
     if c['kind'] not in ('grid', 'random'):
         return None
     r = res_of(io)
